@@ -261,6 +261,8 @@ def render_doctest(dt, indent, out, lineno0, env=None, defaults=None):
     pad = indent
     if dt.get('disabled'):
         out.append(pad + '>>> # ' + dt['disabled'])
+    if dt.get('defaults') is not None:
+        defaults = dt['defaults']
     runs = D.executed_flags(dt['steps'], env or {}, defaults)
     for st, st_runs in zip(dt['steps'], runs):
         sep = st.get('sep', 'none')
